@@ -2,24 +2,50 @@ import Imdlv.Model.CreateFx
 /-!
 # C09 — create never clobbers, never litters, never touches its input
 
-For every file-system state, every request and every fault point.
+For every file-system state, every request, every fault point and every
+interference by other processes between the existence check and the final open.
 -/
 namespace Imdlv.C09
 open Imdlv.CreateFx
 
-/-- a write happens only at the final path, only without `--dry-run`, and never over an
-existing entry unless forced -/
-theorem write_conditions (fs : FS) (r : Req) (out : String) (h : decision fs r = .write out) :
-    finalPath fs r = some out ∧ r.dryRun = false ∧ (r.force = true ∨ fs out = .absent) ∧ r.fault = .none := by
-  unfold decision at h
+theorem openWrite_write (fs : FS) (force : Bool) (out w : String) (h : openWrite fs force out = .write w) :
+    (w = out ∧ (force = true ∨ fs out = .absent) ∧ fs out ≠ .dir) ∨ (force = true ∧ fs out = .link w) := by
+  unfold openWrite at h
+  split at h
+  · cases h
+  · rename_i ha
+    simp only [Decision.write.injEq] at h
+    subst h
+    exact Or.inl ⟨rfl, Or.inr ha, by rw [ha]; simp⟩
+  · rename_i c hc
+    split at h
+    · rename_i hf
+      simp only [Decision.write.injEq] at h
+      subst h
+      exact Or.inl ⟨rfl, Or.inl hf, by rw [hc]; simp⟩
+    · cases h
+  · rename_i t ht
+    split at h
+    · rename_i hf
+      simp only [Decision.write.injEq] at h
+      subst h
+      exact Or.inr ⟨hf, ht⟩
+    · cases h
+
+/-- when a write happens: only for the final path, only without `--dry-run`, only with no fault, and
+either onto nothing, or with `--force` (onto the path itself or through a dangling link found there) -/
+theorem write_conditions_at (fsC fsO : FS) (r : Req) (w : String) (h : decisionAt fsC fsO r = .write w) :
+    ∃ out, finalPath fsC r = some out ∧ r.dryRun = false ∧ r.fault = .none ∧ openWrite fsO r.force out = .write w ∧
+      (r.force = true ∨ present (fsC out) = false) := by
+  unfold decisionAt at h
   by_cases h1 : r.fault = .beforeOutputCheck
   · simp [h1] at h
   · simp only [h1, if_false] at h
-    cases hfp : finalPath fs r with
+    cases hfp : finalPath fsC r with
     | none => simp only [hfp] at h; split at h <;> cases h
     | some o =>
       simp only [hfp] at h
-      by_cases h2 : r.force = false ∧ fs o ≠ .absent
+      by_cases h2 : r.force = false ∧ present (fsC o) = true
       · simp [h2] at h
       · by_cases h3 : r.fault = .whileHashing
         · simp [h2, h3] at h
@@ -27,113 +53,217 @@ theorem write_conditions (fs : FS) (r : Req) (out : String) (h : decision fs r =
           · simp [h2, h3, h4] at h
           · by_cases h5 : r.fault = .atOpen
             · simp [h2, h3, h4, h5] at h
-            · by_cases h6 : fs o = .dir
-              · simp [h2, h3, h4, h5, h6] at h
-              · have h4' : r.dryRun = false := by simpa using h4
-                simp only [h2, h3, h4', h5, h6, if_false, Bool.false_eq_true, Decision.write.injEq] at h
-                subst h
-                refine ⟨rfl, h4', ?_, ?_⟩
-                · cases hf : r.force with
-                  | true => exact Or.inl rfl
-                  | false =>
-                    right
-                    apply Classical.byContradiction
-                    intro hne
-                    exact h2 ⟨hf, hne⟩
-                · cases hfl : r.fault <;> simp_all
+            · have h4' : r.dryRun = false := by simpa using h4
+              simp only [h2, h3, h4', h5, if_false, Bool.false_eq_true] at h
+              refine ⟨o, rfl, h4', ?_, h, ?_⟩
+              · cases hfl : r.fault <;> simp_all
+              · cases hf : r.force with
+                | true => exact Or.inl rfl
+                | false =>
+                  right
+                  cases hp : present (fsC o) with
+                  | false => rfl
+                  | true => exact absurd ⟨hf, hp⟩ h2
 
-/-- **No clobber**: without `--force`, whatever is present at the output path is
-unchanged — the whole file system is — and the command fails. -/
-theorem no_clobber (fs : FS) (r : Req) (out : String) (hout : finalPath fs r = some out)
-    (hf : r.force = false) (hex : fs out ≠ .absent) :
+/-- a write happens only at the final path (or through a dangling link there under `--force`),
+only without `--dry-run`, and never over an existing entry unless forced -/
+theorem write_conditions (fs : FS) (r : Req) (w : String) (h : decision fs r = .write w) :
+    ∃ out, finalPath fs r = some out ∧ r.dryRun = false ∧ r.fault = .none ∧
+      ((w = out ∧ (r.force = true ∨ fs out = .absent)) ∨ (r.force = true ∧ fs out = .link w)) := by
+  obtain ⟨out, h1, h2, h3, h4, _⟩ := write_conditions_at fs fs r w h
+  refine ⟨out, h1, h2, h3, ?_⟩
+  rcases openWrite_write fs r.force out w h4 with ⟨a, b, _⟩ | ⟨a, b⟩
+  · exact Or.inl ⟨a, b⟩
+  · exact Or.inr ⟨a, b⟩
+
+/-- **No clobber, atomically**: without `--force`, nothing that is present *at the time of the
+final open* is replaced — whatever the file system looked like when the output path was checked,
+i.e. also when another process created the file while `imdl` was hashing. -/
+theorem no_clobber_atomic (fsC fsO : FS) (r : Req) (hf : r.force = false) (q : String) (hq : fsO q ≠ .absent) :
+    (createAt fsC fsO r).1 q = fsO q := by
+  unfold createAt
+  cases hdec : decisionAt fsC fsO r with
+  | fail => rfl
+  | noop => rfl
+  | write w =>
+    obtain ⟨out, _, _, _, hw, _⟩ := write_conditions_at fsC fsO r w hdec
+    rcases openWrite_write fsO r.force out w hw with ⟨rfl, hfa, _⟩ | ⟨hforce, _⟩
+    · rcases hfa with hforce | habs
+      · rw [hf] at hforce; cases hforce
+      · have : q ≠ w := by intro e; rw [e] at hq; exact hq habs
+        simp [update, this]
+    · rw [hf] at hforce; cases hforce
+
+/-- **No clobber**: without `--force`, whatever is present at the output path (a file, a
+directory, even a dangling symbolic link) is unchanged — the whole file system is. -/
+theorem no_clobber (fs : FS) (r : Req) (hf : r.force = false) : ∀ q, fs q ≠ .absent → (create fs r).1 q = fs q :=
+  fun q hq => no_clobber_atomic fs fs r hf q hq
+
+/-- … and when the output path exists in the sense of `Path::exists`, the command fails outright -/
+theorem existing_output_refused (fs : FS) (r : Req) (out : String) (hout : finalPath fs r = some out)
+    (hf : r.force = false) (hex : present (fs out) = true) :
     create fs r = (fs, .error) := by
-  have : decision fs r = .fail := by
-    unfold decision
+  have : decisionAt fs fs r = .fail := by
+    unfold decisionAt
     by_cases h1 : r.fault = .beforeOutputCheck
     · simp [h1]
     · simp [h1, hout, hf, hex]
-  simp [create, this]
+  simp [create, createAt, this]
 
-/-- **A failed create leaves no trace**: whenever the outcome is an error, the file system is unchanged. -/
-theorem failure_frame (fs : FS) (r : Req) (h : (create fs r).2 = .error) : (create fs r).1 = fs := by
-  unfold create at h ⊢
-  cases hd : decision fs r <;> simp_all
+/-- a dangling symbolic link at the output path is not written through without `--force` -/
+theorem dangling_link_not_followed (fs : FS) (r : Req) (out t : String) (hout : finalPath fs r = some out)
+    (hf : r.force = false) (hl : fs out = .link t) : (create fs r).1 = fs := by
+  unfold create createAt
+  cases hdec : decisionAt fs fs r with
+  | fail => rfl
+  | noop => rfl
+  | write w =>
+    exfalso
+    obtain ⟨out', h1, _, _, hw, _⟩ := write_conditions_at fs fs r w hdec
+    rw [hout] at h1
+    simp only [Option.some.injEq] at h1
+    subst h1
+    simp [openWrite, hl, hf] at hw
+
+/-- **A failed create leaves no trace**: whenever the outcome is an error, the file system is unchanged
+(also under interference: nothing is added to what the other processes did). -/
+theorem failure_frame_at (fsC fsO : FS) (r : Req) (h : (createAt fsC fsO r).2 = .error) : (createAt fsC fsO r).1 = fsO := by
+  unfold createAt at h ⊢
+  cases hd : decisionAt fsC fsO r <;> simp_all
+
+theorem failure_frame (fs : FS) (r : Req) (h : (create fs r).2 = .error) : (create fs r).1 = fs :=
+  failure_frame_at fs fs r h
 
 /-- **`--dry-run` leaves the file system exactly as it was.** -/
 theorem dry_run_frame (fs : FS) (r : Req) (hd : r.dryRun = true) : (create fs r).1 = fs := by
-  unfold create
-  cases hdec : decision fs r with
+  unfold create createAt
+  cases hdec : decisionAt fs fs r with
   | fail => rfl
   | noop => rfl
   | write out =>
-    have := (write_conditions fs r out hdec).2.1
-    rw [hd] at this; cases this
+    obtain ⟨_, _, h, _⟩ := write_conditions_at fs fs r out hdec
+    rw [hd] at h; cases h
 
-/-- every fault before the write yields an error (and hence no trace) -/
+/-- every fault yields no change -/
 theorem early_fault_fails (fs : FS) (r : Req) (h : r.fault ≠ .none) : create fs r = (fs, .error) ∨ create fs r = (fs, .ok) := by
-  unfold create
-  cases hdec : decision fs r with
+  unfold create createAt
+  cases hdec : decisionAt fs fs r with
   | fail => exact Or.inl rfl
   | noop => exact Or.inr rfl
-  | write out => exact absurd (write_conditions fs r out hdec).2.2.2 h
+  | write out =>
+    obtain ⟨_, _, _, hn, _⟩ := write_conditions_at fs fs r out hdec
+    exact absurd hn h
 
 theorem fault_before_output_check_fails (fs : FS) (r : Req) (h : r.fault = .beforeOutputCheck) :
     create fs r = (fs, .error) := by
-  simp [create, decision, h]
+  simp [create, createAt, decisionAt, h]
+
+/-- where the bytes land: the output path, or the target of a dangling link found there -/
+def landing (fs : FS) (out : String) : String :=
+  match fs out with
+  | .link t => t
+  | _ => out
 
 /-- **Success writes exactly one file, at the documented path**: on success
 without `--dry-run` and with a path target, the new file system differs from the
-old one at most at the output path, which holds exactly the torrent bytes. -/
+old one at most at the output path (or, under `--force`, the target of a dangling
+link there), which holds exactly the torrent bytes. -/
 theorem success_exactly_one (fs : FS) (r : Req) (out : String) (hout : finalPath fs r = some out)
     (hok : (create fs r).2 = .ok) (hd : r.dryRun = false) :
-    (create fs r).1 = update fs out (.file r.bytes) := by
-  unfold create at hok ⊢
-  cases hdec : decision fs r with
+    (create fs r).1 = update fs (landing fs out) (.file r.bytes) := by
+  unfold create createAt at hok ⊢
+  cases hdec : decisionAt fs fs r with
   | fail => simp [hdec] at hok
-  | write o =>
-    have := (write_conditions fs r o hdec).1
-    rw [hout] at this
-    simp only [Option.some.injEq] at this
-    subst this; rfl
+  | write w =>
+    obtain ⟨out', h1, _, _, hw, _⟩ := write_conditions_at fs fs r w hdec
+    rw [hout] at h1
+    simp only [Option.some.injEq] at h1
+    subst h1
+    rcases openWrite_write fs r.force out w hw with ⟨rfl, _, _⟩ | ⟨_, hl⟩
+    · have : landing fs w = w := by
+        unfold landing
+        cases hfw : fs w with
+        | link t => simp [openWrite, hfw] at hw; split at hw <;> simp_all
+        | _ => rfl
+      simp [this]
+    · simp [landing, hl]
   | noop =>
     -- `noop` with a path target happens only under --dry-run
     exfalso
-    unfold decision at hdec
+    unfold decisionAt at hdec
     by_cases h1 : r.fault = .beforeOutputCheck
     · simp [h1] at hdec
     · simp only [h1, if_false, hout] at hdec
-      by_cases h2 : r.force = false ∧ fs out ≠ .absent
+      by_cases h2 : r.force = false ∧ present (fs out) = true
       · simp [h2] at hdec
       · by_cases h3 : r.fault = .whileHashing
         · simp [h2, h3] at hdec
         · by_cases h5 : r.fault = .atOpen
           · simp [h2, h3, hd, h5] at hdec
-          · by_cases h6 : fs out = .dir
-            · simp [h2, h3, hd, h5, h6] at hdec
-            · simp [h2, h3, hd, h5, h6] at hdec
+          · simp only [h2, h3, hd, h5, if_false, Bool.false_eq_true] at hdec
+            unfold openWrite at hdec
+            split at hdec <;> (try split at hdec) <;> cases hdec
+
+/-- without `--force`, a success lands exactly on the output path -/
+theorem success_exactly_one_unforced (fs : FS) (r : Req) (out : String) (hout : finalPath fs r = some out)
+    (hok : (create fs r).2 = .ok) (hd : r.dryRun = false) (hf : r.force = false) :
+    (create fs r).1 = update fs out (.file r.bytes) := by
+  rw [success_exactly_one fs r out hout hok hd]
+  cases hl : fs out with
+  | link t =>
+    exfalso
+    have := dangling_link_not_followed fs r out t hout hf hl
+    unfold create createAt at hok this
+    cases hdec : decisionAt fs fs r with
+    | fail => simp [hdec] at hok
+    | noop =>
+      -- impossible without dry-run (shown inside success_exactly_one); redo the short argument
+      unfold decisionAt at hdec
+      by_cases h1 : r.fault = .beforeOutputCheck
+      · simp [h1] at hdec
+      · simp only [h1, if_false, hout] at hdec
+        by_cases h2 : r.force = false ∧ present (fs out) = true
+        · simp [h2] at hdec
+        · by_cases h3 : r.fault = .whileHashing
+          · simp [h2, h3] at hdec
+          · by_cases h5 : r.fault = .atOpen
+            · simp [h2, h3, hd, h5] at hdec
+            · simp [h2, h3, hd, h5, openWrite, hl, hf] at hdec
+    | write w =>
+      obtain ⟨out', h1, _, _, hw, _⟩ := write_conditions_at fs fs r w hdec
+      rw [hout] at h1
+      simp only [Option.some.injEq] at h1
+      subst h1
+      simp [openWrite, hl, hf] at hw
+  | _ => simp [landing, hl]
 
 /-- **Everything else is untouched** — in particular the input content: for every
-path other than the output path, nothing changes, whatever happens. -/
-theorem others_untouched (fs : FS) (r : Req) (q : String) (hq : finalPath fs r ≠ some q) :
+path other than the output path (and the target of a dangling link there), nothing changes, whatever happens. -/
+theorem others_untouched (fs : FS) (r : Req) (q : String)
+    (hq : ∀ out, finalPath fs r = some out → q ≠ out ∧ q ≠ landing fs out) :
     (create fs r).1 q = fs q := by
-  unfold create
-  cases hdec : decision fs r with
+  unfold create createAt
+  cases hdec : decisionAt fs fs r with
   | fail => rfl
   | noop => rfl
-  | write out =>
-    have := (write_conditions fs r out hdec).1
-    have hne : q ≠ out := by intro e; apply hq; rw [this, e]
+  | write w =>
+    obtain ⟨out, h1, _, _, hw, _⟩ := write_conditions_at fs fs r w hdec
+    obtain ⟨hne1, hne2⟩ := hq out h1
+    have hne : q ≠ w := by
+      rcases openWrite_write fs r.force out w hw with ⟨rfl, _, _⟩ | ⟨_, hl⟩
+      · exact hne1
+      · simpa [landing, hl] using hne2
     simp [update, hne]
 
 /-- writing to standard output never changes the disk -/
 theorem stdout_frame (fs : FS) (r : Req) (h : r.target = .stdout) : (create fs r).1 = fs := by
-  unfold create
-  cases hdec : decision fs r with
+  unfold create createAt
+  cases hdec : decisionAt fs fs r with
   | fail => rfl
   | noop => rfl
   | write out =>
-    have := (write_conditions fs r out hdec).1
-    simp [finalPath, h] at this
+    obtain ⟨o, h1, _⟩ := write_conditions_at fs fs r out hdec
+    simp [finalPath, h] at h1
 
 /-- the documented output path: the explicit target, or `<name>.torrent` inside a target directory -/
 theorem output_path_documented (fs : FS) (r : Req) (p : String) (h : r.target = .path p) :
@@ -145,9 +275,14 @@ theorem output_path_documented (fs : FS) (r : Req) (p : String) (h : r.target = 
 theorem read_only_frame (fs : FS) : readOnly fs = fs := rfl
 
 /-! ## Non-vacuity -/
-def fs0 : FS := fun p => if p = "out.torrent" then .file [1] else if p = "d" then .dir else .absent
+def fs0 : FS := fun p => if p = "out.torrent" then .file [1] else if p = "d" then .dir else if p = "l" then .link "elsewhere" else .absent
 example : (create fs0 ⟨false, false, .path "out.torrent", "n.torrent", .none, [9]⟩).2 = .error := by decide
 example : (create fs0 ⟨true, false, .path "out.torrent", "n.torrent", .none, [9]⟩).1 "out.torrent" = .file [9] := by decide
 example : (create fs0 ⟨false, false, .path "d", "n.torrent", .none, [9]⟩).1 "d/n.torrent" = .file [9] := by decide
+example : (create fs0 ⟨false, false, .path "l", "n.torrent", .none, [9]⟩) = (fs0, .error) := by
+  simp [create, createAt, decisionAt, finalPath, fs0, present, openWrite]
+example : (create fs0 ⟨true, false, .path "l", "n.torrent", .none, [9]⟩).1 "elsewhere" = .file [9] := by decide
+/-- interference: the file appears after the check — the late file survives -/
+example : (createAt (fun _ => .absent) (fun p => if p = "o" then .file [7] else .absent) ⟨false, false, .path "o", "n", .none, [9]⟩).1 "o" = .file [7] := by decide
 
 end Imdlv.C09
